@@ -334,3 +334,74 @@ def install_shares(grid, si, shares, placement=None):
         os.makedirs(d, exist_ok=True)
         with open(os.path.join(d, "%d" % shnum), "wb") as f:
             f.write(raw)
+
+
+def forge_coordinated(grid, si, k, n, size, segsize, rng):
+    """Coordinated forgery that leaves the UEB and the share hash chains alone:
+    keep exactly k shares, replace one block of one of them, recompute THAT share's
+    block hash tree, decode the segment the reader will obtain and recompute the
+    ciphertext hash tree (stored in every kept share) to match it.  A correct reader
+    must reject it twice over (block hash root vs. share hash leaf; ciphertext hash
+    tree vs. the root in the UEB).  Returns a description or None."""
+    import zfec
+    from allmydata.hashtree import HashTree
+    from allmydata.util import hashutil
+    shares = grid.find_shares(si)
+    nums = sorted(set(s for (_, s, _) in shares))
+    if len(nums) < k:
+        return None
+    keep = sorted(rng.sample(nums, k))
+    kept = {}
+    for (vs, s, path) in shares:
+        if s in keep and s not in kept:
+            kept[s] = ShareFile(path)
+        else:
+            os.unlink(path)
+    eff = ((min(segsize, size) + k - 1) // k) * k
+    numsegs = (size + eff - 1) // eff
+    j = rng.randrange(numsegs)
+    seglen = eff if j < numsegs - 1 else size - j * eff
+    padded = ((seglen + k - 1) // k) * k
+    blen = padded // k
+    victim = rng.choice(keep)
+    blocks = {}
+    for s, sf in kept.items():
+        d0, _ = sf.region("data")
+        bs = sf.block_size
+        blocks[s] = sf.data()[d0 + j * bs:d0 + j * bs + blen]
+        if len(blocks[s]) != blen:
+            return None
+    newblock = rng.randbytes(blen)
+    if newblock == blocks[victim]:
+        return None
+    blocks[victim] = newblock
+    prim = zfec.Decoder(k, n).decode([blocks[s] for s in keep], keep)
+    segment = b"".join(prim)[:seglen]
+
+    def rebuilt(tree_bytes, nleaves, idx, newleaf):
+        nodes = [tree_bytes[i:i + 32] for i in range(0, len(tree_bytes), 32)]
+        first = len(nodes) - (len(nodes) + 1) // 2
+        leaves = nodes[first:first + nleaves]
+        leaves[idx] = newleaf
+        t = HashTree(leaves)
+        out = b"".join(t[i] for i in range(len(t)))
+        return out if len(out) == len(tree_bytes) else None
+
+    # the victim's own block hash tree
+    sf = kept[victim]
+    s0, e0 = sf.region("block_hashes")
+    bht = rebuilt(sf.data()[s0:e0], numsegs, j, hashutil.block_hash(newblock))
+    if bht is None:
+        return None
+    d0, _ = sf.region("data")
+    sf.write_at(d0 + j * sf.block_size, newblock)
+    sf.write_at(s0, bht)
+    # ciphertext hash tree in every kept share
+    for s, f in kept.items():
+        c0, c1 = f.region("crypttext_hash_tree")
+        cht = rebuilt(f.data()[c0:c1], numsegs, j, hashutil.crypttext_segment_hash(segment))
+        if cht is None:
+            return None
+        f.write_at(c0, cht)
+        f.save()
+    return "kept=%s victim=sh%d seg=%d/%d" % (keep, victim, j, numsegs)
